@@ -103,6 +103,10 @@ pub enum Op {
     /// Position the clock exactly `delta_us` relative to the nominal deadline of the
     /// d-th most recent delivery on s (only forward; no-op when that instant has passed).
     GoTo { s: S, d: u16, delta_us: i64 },
+    /// Like `GoTo`, but relative to the deadline the server actually computed (the nominal one
+    /// rounded forward to its 100 ms grid) of the `back`-th most recent delivery on s (0 = the
+    /// most recent): lands the clock between two deadlines that are milliseconds apart.
+    GoToActual { s: S, back: u8, delta_us: i64 },
     /// abort the c-th most recent still-pending call
     Abort { c: u8 },
     /// launch n calls of one kind in one tick: kind 0 Pull(blocking,max 1), 1 Pull(ri),
